@@ -84,6 +84,7 @@ func runC18(c *core.Ctx) {
 		nSchemas, per, nSubsets = 400, 30, 40
 	}
 	cases := GenValidationCases(c, nSchemas, per, nil)
+	cases = append(cases, TypeMatrixLiterals()...)
 	all := append(append([]string{}, DefaultRuleNames...), NoSuggestRuleNames...)
 	// random subsets and orders, fixed for the run
 	subsets := make([][]string, nSubsets)
